@@ -166,3 +166,65 @@ func c03Causes(inject bool) {
 
 func VerifH_C03_two_causes() { verif.RunTimed(func() { c03Causes(false) }) }
 func VerifH_C03_injected()   { verif.RunTimed(func() { c03Causes(true) }) }
+
+// VerifH_C03_dies_in_handshake: the transport reports its close or an error to the session
+// at any yield point while the session is still being constructed (the session's listeners
+// are already attached): the session is closed for good -- it is never opened afterwards,
+// never handed to the application as a live session, never registered, and its later
+// heartbeat deadline does not close it a second time.
+func VerifH_C03_dies_in_handshake() {
+	verif.RunTimed(func() {
+		opts := config.DefaultServerOptions()
+		opts.SetPingInterval(1000)
+		opts.SetPingTimeout(500)
+		ps := newProtoServer(opts)
+		var handed Socket
+		closes := 0
+		ps.On("connection", func(a ...any) {
+			handed = a[0].(Socket)
+			handed.On("close", func(...any) { closes++ })
+		})
+		kind := verif.Choose(2)
+		sawCause := false
+		ps.onMade = func(f *fakeTransport) {
+			verif.Event("transport dies", func() {
+				if kind == 0 {
+					if f.ListenerCount("close") == 0 {
+						return // the session does not listen yet: it cannot know
+					}
+					sawCause = true
+					f.OnClose()
+				} else {
+					if f.ListenerCount("error") == 0 {
+						return
+					}
+					sawCause = true
+					f.OnError("reset", nil)
+				}
+			})
+			verif.InjectBudget(1)
+		}
+		ctx, _ := newCtx("GET", "/engine.io/")
+		tn := [2]string{transports.POLLING, transports.WEBSOCKET}[verif.Choose(2)]
+		ctx.Query().Set("transport", tn)
+		ctx.Query().Set("EIO", [2]string{"4", "3"}[verif.Choose(2)])
+		ps.Handshake(tn, ctx)
+		verif.InjectBudget(0)
+		verif.Settle()
+		if !sawCause {
+			return
+		}
+		ft := ps.made[0]
+		_, registered := ps.Clients().Load(ft.Sid())
+		verif.Assert(!registered && ps.ClientsCount() == 0, "a session that saw a close cause during its construction is not registered")
+		if handed != nil {
+			verif.Assert(handed.ReadyState() == "closed", "a session that saw a close cause is never open afterwards")
+		}
+		verif.SleepUntil(verif.Now() + 5000)
+		verif.Settle()
+		verif.Assert(closes == 0, "and it does not close a second time later")
+		if handed != nil {
+			verif.Assert(handed.ReadyState() == "closed", "state stays closed")
+		}
+	})
+}
